@@ -106,7 +106,7 @@ from typing import Any, Iterable
 from .. import gen
 from .. import loop as L
 from ..net import Conn, Sched, lit, quote
-from ..runner import Check
+from ..runner import Check, load_known
 from ..servers import make_env
 
 DELIM = '/'
@@ -185,14 +185,22 @@ def first_is_inbox(name: str) -> bool:
     return name.split(DELIM, 1)[0].upper() == 'INBOX'
 
 
-def shape_suffix(name: str | None) -> str:
+def shape_suffix(name: str | None, lsub: bool = False) -> str:
+    """Structural refinement of a mechanism id by the shape of the name that
+    makes the difference: a line break in it (regex '.'/'$', line-oriented
+    files), or -- subscriptions only -- trailing white space."""
     if name is None:
         return ''
     if '\n' in name or '\r' in name:
         return ':newline-in-name'
-    if name != name.rstrip():
+    if lsub and name != name.rstrip():
         return ':trailing-whitespace'
     return ''
+
+
+def klass_suffix(klass: str, name: str | None, lsub: bool = False) -> str:
+    """':<pattern class>' unless the name's shape already explains it."""
+    return shape_suffix(name, lsub) or ':' + klass
 
 
 def name_class(name: str) -> str:
@@ -405,6 +413,24 @@ class Names:
         return must, must | may
 
 
+def avoid_switch(mech: str) -> str | None:
+    """Generator switch that keeps a *listed* mechanism from ending every
+    trace (DESIGN section 5): the input class that triggers it."""
+    if ':newline-in-name' in mech:
+        return 'newline'
+    if ':trailing-whitespace' in mech:
+        return 'trailing-ws'
+    if mech == 'lsub-reports-never-subscribed:inbox':
+        return 'unsub-inbox'
+    if ':inbox-variant' in mech:
+        return 'inbox-variant'
+    if mech.endswith(':inbox-inferior'):
+        return 'inbox-inferior'
+    if 'target-below-source' in mech:
+        return 'rename-below'
+    return None
+
+
 class Died(Exception):
     pass
 
@@ -447,15 +473,26 @@ class Runner:
         self.nappend = 0
         self.rng2 = random.Random(spec['seed'] ^ 0x5eed)
         self.full_dumps = bool(spec.get('script')) or spec.get('full', False)
+        self.avoid = set(spec.get('avoid') or ())
         self.used: list[str] = []     # names the program has used so far
 
     # -- wire -----------------------------------------------------------------
 
-    async def cmd(self, rest: bytes) -> Any:
+    async def cmd(self, rest: bytes, judged: str | None = None) -> Any:
+        """``judged`` = the command is a namespace command under test (not an
+        observation): no tagged answer is then outside every allowed set."""
         r = await self.c.simple(rest)
         self.ctx.count('commands')
         if r.tagged is None:
-            raise Died(rest.split(b' ')[0].decode('latin-1'))
+            verb = rest.split(b' ')[0].decode('latin-1')
+            if judged is not None:
+                bye = [u.raw for u in r.untagged if u.cond == b'BYE']
+                self.ctx.report(
+                    'command-kills-connection:%s%s' % (verb, judged),
+                    '%s got no tagged answer, connection closed (%r)'
+                    % (rest[:120], bye[:1]))
+                raise Stop()
+            raise Died(verb)
         return r
 
     async def deselect(self) -> None:
@@ -471,7 +508,7 @@ class Runner:
         """[(decoded name | None, attrs, wire name)] or None if refused."""
         line = verb + b' ' + wire_name(ref) + b' ' + \
             wire_pattern(pat, rng)
-        r = await self.cmd(line)
+        r = await self.cmd(line, '')
         if not r.ok:
             return None
         out = []
@@ -616,7 +653,7 @@ class Runner:
         if obs == want:
             return
         if outcome != 'OK':
-            ctx.report('no-but-state-changed',
+            ctx.report('no-but-state-changed:%s:content' % kind,
                        '%s answered %s but %r changed: %r -> %r'
                        % (kind, outcome, n, want, obs), name=n)
         elif n in m.moved:
@@ -724,7 +761,7 @@ class Runner:
                     m.real[n] = FRESH
                     m.adopted.add(n)
                 elif outcome != 'OK':
-                    ctx.report('no-but-state-changed',
+                    ctx.report('no-but-state-changed:%s:parent-created' % kind,
                                '%s answered %s but the hierarchy parent %r is '
                                'now listed as a selectable mailbox'
                                % (kind, outcome, n), name=n)
@@ -740,12 +777,13 @@ class Runner:
             if n not in listed:
                 ctx.count('lat_parent_unlisted')
         if outcome != 'OK' and (missing or extra):
-            ctx.report('no-but-state-changed',
+            ctx.report('no-but-state-changed:%s:list' % kind,
                        '%s answered %s but LIST "" * changed: missing %r, '
                        'new %r' % (kind, outcome, missing, extra))
         elif missing and extra and len(missing) == 1 and len(extra) == 1 \
                 and kind in ('CREATE', 'RENAME') \
-                and (missing[0] in m.moved or m.real[missing[0]] is FRESH):
+                and extra[0][0] not in self._rename_sources \
+                and missing[0] == norm(self._last_target or ''):
             ctx.report('name-roundtrip-changed' + shape_suffix(missing[0]),
                        'created %r, listed as %r' % (missing[0], extra[0]),
                        name=missing[0])
@@ -757,8 +795,8 @@ class Runner:
                                'RENAME moved %r to %r but it is not listed'
                                % (m.moved[n], n), name=n)
                 else:
-                    ctx.report('list-missing-existing-name:star'
-                               + shape_suffix(n),
+                    ctx.report('list-missing-existing-name'
+                               + klass_suffix('star', n),
                                '%r exists but LIST "" * omits it (after %s)'
                                % (n, kind), name=n)
             for n2, wire in extra:
@@ -772,10 +810,13 @@ class Runner:
                                '%r still listed after RENAME' % (n2,),
                                name=n2)
                 else:
-                    ctx.report('list-reports-nonexistent-name',
+                    ctx.report('list-reports-nonexistent-name' + (
+                        ':rename-target-below-source'
+                        if kind == 'RENAME' and self._below else ''),
                                '%r is listed after %s %s but does not exist '
                                'in the model' % (n2, kind, outcome), name=n2)
-        self._children(listed, 'LIST')
+        if not ctx.violations:
+            self._children(listed, 'LIST')
         # LSUB
         ent = await self.listing(b'LSUB', '', '*', None)
         ctx.count('lsub_full_comparisons')
@@ -810,7 +851,7 @@ class Runner:
                 ctx.count('lat_lsub_parent')
                 continue
             if outcome != 'OK':
-                ctx.report('no-but-state-changed',
+                ctx.report('no-but-state-changed:%s:lsub' % kind,
                            '%s answered %s but LSUB "" * now has %r'
                            % (kind, outcome, n), name=n)
             else:
@@ -823,12 +864,12 @@ class Runner:
                 continue
             if n in m.real:
                 if outcome != 'OK':
-                    ctx.report('no-but-state-changed',
+                    ctx.report('no-but-state-changed:%s:lsub' % kind,
                                '%s answered %s but LSUB "" * lost %r'
                                % (kind, outcome, n), name=n)
                 else:
                     ctx.report('lsub-missing-subscribed-name'
-                               + shape_suffix(n),
+                               + shape_suffix(n, True),
                                '%r exists and is subscribed but LSUB "" * '
                                'omits it (after %s)' % (n, kind), name=n)
             else:
@@ -847,7 +888,7 @@ class Runner:
         for s in self.m.subs:
             if s != n and s.rstrip() == n:
                 return ':trailing-whitespace'
-        return shape_suffix(n)
+        return shape_suffix(n, True)
 
     def _children(self, listed: dict[str, list[bytes]], verb: str) -> None:
         m = self.m
@@ -964,16 +1005,16 @@ class Runner:
         prefix = 'lsub' if sub else 'list'
         known = set(m.real) | m.implied() | (m.subs if sub else set())
         for n in sorted(must - got):
-            ctx.report('%s-missing-%s-name:%s%s' % (
-                prefix, 'subscribed' if sub else 'existing', klass,
-                shape_suffix(n)),
+            ctx.report('%s-missing-%s-name%s' % (
+                prefix, 'subscribed' if sub else 'existing',
+                klass_suffix(klass, n, sub)),
                 '%s %r %r omits %r (got %r)' % (verb, ref, pat, n,
                                                 sorted(got)),
                 name=n, ref=ref, pattern=pat)
         for n in sorted(got - may):
             if n in known:
-                ctx.report('%s-pattern-mismatch:%s%s' % (
-                    prefix, klass, shape_suffix(n)),
+                ctx.report('%s-pattern-mismatch%s' % (
+                    prefix, klass_suffix(klass, n)),
                     '%s %r %r returns %r which does not match'
                     % (verb, ref, pat, n), name=n, ref=ref, pattern=pat)
             else:
@@ -998,6 +1039,7 @@ class Runner:
     # -- program steps --------------------------------------------------------
 
     _last_target: str | None = None
+    _below = False
     _rename_sources: set[str] = set()
 
     def pick_existing(self, include_inbox: bool = True) -> str | None:
@@ -1063,6 +1105,37 @@ class Runner:
                    for n in list(self.m.real) + self.used)
 
     def gen_op(self, i: int) -> list[Any]:
+        """The next program step; input classes of *listed* findings are
+        switched off (``avoid``) so that the rest of the property is explored
+        in depth -- each listed finding is still exercised by its trigger."""
+        op = self._gen_op(i)
+        av = self.avoid
+        if not av:
+            return op
+        names = [self.sanitize(x) for x in op[1:]]
+        if op[0] == 'UNSUBSCRIBE' and 'unsub-inbox' in av \
+                and norm(names[0]) == 'INBOX':
+            names[0] = 'INBOX-never'
+        if op[0] == 'RENAME' and 'rename-below' in av \
+                and names[1].startswith(names[0] + DELIM):
+            names[1] = names[0] + 'r'
+        return [op[0]] + names
+
+    def sanitize(self, name: str) -> str:
+        av = self.avoid
+        if 'newline' in av:
+            name = name.replace('\n', '_').replace('\r', '_')
+        if 'trailing-ws' in av and name != name.rstrip():
+            name = name.rstrip() + '_'
+        if first_is_inbox(name) and DELIM in name:
+            head, tail = name.split(DELIM, 1)
+            if 'inbox-inferior' in av:
+                name = 'I' + head + DELIM + tail
+            elif 'inbox-variant' in av and head != 'INBOX':
+                name = 'INBOX' + DELIM + tail
+        return name
+
+    def _gen_op(self, i: int) -> list[Any]:
         rng = self.rng
         m = self.m
         nreal = len(m.real)
@@ -1144,6 +1217,7 @@ class Runner:
         kind = op[0]
         m.begin_step()
         self._last_target = None
+        self._below = False
         self._rename_sources = set()
         ctx.ops.append(op)
         if kind in ('LIST', 'LSUB'):
@@ -1164,8 +1238,11 @@ class Runner:
         st = m.status(name)
         w = wire_name(name)
         truncated = False
+        dcls = ':inbox-inferior' if first_is_inbox(name) and DELIM in name \
+            else ''
         if kind == 'CREATE':
-            r = await self.cmd(b'CREATE ' + w)
+            self._last_target = name
+            r = await self.cmd(b'CREATE ' + w, dcls)
             ok = r.ok
             if n == 'INBOX':
                 self.refusal_or(kind, ok, 'inbox-created-or-deleted',
@@ -1184,7 +1261,7 @@ class Runner:
             else:
                 ctx.count('lat_create_refused')
         elif kind == 'DELETE':
-            r = await self.cmd(b'DELETE ' + w)
+            r = await self.cmd(b'DELETE ' + w, dcls)
             ok = r.ok
             if n == 'INBOX':
                 self.refusal_or(kind, ok, 'inbox-created-or-deleted',
@@ -1217,7 +1294,7 @@ class Runner:
                 truncated = True
                 ok = True
         elif kind == 'SUBSCRIBE':
-            r = await self.cmd(b'SUBSCRIBE ' + w)
+            r = await self.cmd(b'SUBSCRIBE ' + w, dcls)
             ok = r.ok
             if ok:
                 m.subs.add(n)
@@ -1230,7 +1307,7 @@ class Runner:
             else:
                 ctx.count('lat_subscribe_missing_no')
         elif kind == 'UNSUBSCRIBE':
-            r = await self.cmd(b'UNSUBSCRIBE ' + w)
+            r = await self.cmd(b'UNSUBSCRIBE ' + w, dcls)
             ok = r.ok
             if ok:
                 if n in m.subs:
@@ -1242,15 +1319,16 @@ class Runner:
                            name=n)
         elif kind in ('STATUS', 'SELECT', 'EXAMINE', 'APPEND'):
             if kind == 'STATUS':
-                r = await self.cmd(b'STATUS ' + w + b' (MESSAGES UIDNEXT)')
+                r = await self.cmd(b'STATUS ' + w + b' (MESSAGES UIDNEXT)',
+                                   dcls)
             elif kind == 'APPEND':
                 self.nappend += 1
                 vfid = 'c11-%d-%d' % (self.seed, self.nappend)
                 r = await self.cmd(b'APPEND ' + w + b' ' + lit(
                     b'X-VF-ID: ' + vfid.encode() +
-                    b'\r\nSubject: c11\r\n\r\nbody\r\n'))
+                    b'\r\nSubject: c11\r\n\r\nbody\r\n'), dcls)
             else:
-                r = await self.cmd(kind.encode() + b' ' + w)
+                r = await self.cmd(kind.encode() + b' ' + w, dcls)
             ok = r.ok
             if kind in ('SELECT', 'EXAMINE'):
                 await self.deselect()
@@ -1310,8 +1388,12 @@ class Runner:
         a, b = op[1], op[2]
         na, nb = norm(a), norm(b)
         self._last_target = b
+        self._below = b.startswith(a + DELIM)
+        dcls = ':target-below-source' if b.startswith(a + DELIM) else (
+            ':inbox-inferior' if any(first_is_inbox(x) and DELIM in x
+                                     for x in (a, b)) else '')
         r = await self.cmd(b'RENAME ' + wire_name(a) + b' '
-                           + wire_name(b))
+                           + wire_name(b), dcls)
         ok = r.ok
         stb = m.status(b)
         if nb == 'INBOX':
@@ -1499,12 +1581,23 @@ class C11(Check):
     def cases(self, tier: str, seed: int) -> Iterable[dict[str, Any]]:
         n = 1000 if tier == 'quick' else 14000
         rng = random.Random(seed * 7919 + 11)
+        # listed findings switch their input class off (entries may restrict
+        # this to some backends with "avoid_backends": [...])
+        avoid: list[tuple[str, Any]] = []
+        for e in load_known(self.pid):
+            sw = avoid_switch(e.get('mechanism', ''))
+            if e.get('status') == 'known' and sw:
+                avoid.append((sw, e.get('avoid_backends')))
         for i in range(n):
-            yield {'seed': seed * 1_000_003 + i,
-                   'backend': rng.choice(['dict', 'dict', 'maildir',
-                                          'maildir-fs']),
-                   'nsteps': rng.randint(4, 20),
-                   'full': rng.random() < 0.2}
+            backend = rng.choice(['dict', 'dict', 'maildir', 'maildir-fs'])
+            spec = {'seed': seed * 1_000_003 + i, 'backend': backend,
+                    'nsteps': rng.randint(4, 20),
+                    'full': rng.random() < 0.2}
+            av = sorted({sw for sw, only in avoid
+                         if not only or backend in only})
+            if av:
+                spec['avoid'] = av
+            yield spec
 
     def run_case(self, spec: dict[str, Any]) -> dict[str, Any]:
         random.seed(spec['seed'])
